@@ -27,6 +27,7 @@ type TOp struct {
 	Idx  int    `json:"idx,omitempty"`
 	N    int    `json:"n,omitempty"`
 	Mode string `json:"mode,omitempty"` // respond: how the client treats the body: read-all, read-some, cancel
+	Rsv  bool   `json:"rsv,omitempty"`  // wu_*: reserved bit set
 }
 
 type TScript struct {
@@ -53,9 +54,9 @@ func genT(t *rapid.T) TScript {
 			s.Ops = append(s.Ops, TOp{Kind: "request", Idx: nReq, N: rapid.SampledFrom([]int{0, 1, 1000, 16384, 65535, 65536, 100000, 300000}).Draw(t, "size")})
 			nReq++
 		case "wu_conn":
-			s.Ops = append(s.Ops, TOp{Kind: "wu_conn", N: rapid.SampledFrom([]int{1, 1000, 16384, 65535, 1 << 20}).Draw(t, "inc")})
+			s.Ops = append(s.Ops, TOp{Kind: "wu_conn", N: rapid.SampledFrom([]int{1, 1000, 16384, 65535, 1 << 20}).Draw(t, "inc"), Rsv: rapid.IntRange(0, 3).Draw(t, "rsv") == 0})
 		case "wu_stream":
-			s.Ops = append(s.Ops, TOp{Kind: "wu_stream", Idx: rapid.IntRange(0, nReq-1).Draw(t, "r"), N: rapid.SampledFrom([]int{1, 1000, 16384, 65535, 1 << 20}).Draw(t, "inc")})
+			s.Ops = append(s.Ops, TOp{Kind: "wu_stream", Idx: rapid.IntRange(0, nReq-1).Draw(t, "r"), N: rapid.SampledFrom([]int{1, 1000, 16384, 65535, 1 << 20}).Draw(t, "inc"), Rsv: rapid.IntRange(0, 3).Draw(t, "rsv") == 0})
 		case "initial_window":
 			s.Ops = append(s.Ops, TOp{Kind: "initial_window", N: rapid.SampledFrom([]int{0, 1, 1000, 30000, 65535, 70000, 100000, 1 << 20}).Draw(t, "iw")})
 		case "max_frame":
@@ -266,14 +267,14 @@ func execT(t *testing.T, s TScript) (viol *vstat.Violation, classes map[string]b
 					continue
 				}
 				connWin += int64(op.N)
-				peer.Fr.WriteWindowUpdate(0, uint32(op.N))
+				writeWU(peer.Fr, 0, uint32(op.N), op.Rsv)
 			case "wu_stream":
 				r := reqs[op.Idx]
 				if r.sid == 0 || r.reset || r.ended || r.win+int64(op.N) > maxWin {
 					continue
 				}
 				r.win += int64(op.N)
-				peer.Fr.WriteWindowUpdate(r.sid, uint32(op.N))
+				writeWU(peer.Fr, r.sid, uint32(op.N), op.Rsv)
 			case "initial_window":
 				old, nv := initWin, int64(op.N)
 				initWin = nv
